@@ -115,9 +115,9 @@ CLAIMED = {
              "the per-session outputs, each session decrypted and built on its own). QUIC: C04_quic_sessions_as_if_alone (the demultiplexer -- addresses first, then connection IDs -- for every capture of "
              "datagrams in any interleaving: the sessions on q's address pair are exactly, keys, connection IDs, packet numbers and collected frames included, those obtained "
              "from q's datagrams alone, as long as the connection-ID pass never claims a datagram across the boundary of q's flow, i.e. no connection migration between the "
-             "flows; C04_quic_one_datagram; via C08_quic_session_identity). Closed under the global context. The check merges 2..6 TLS/QUIC connections in all endpoint arrangements the property lists and compares, frame for frame, with the solo exports.",
-        note="Trusted: Coq kernel; models tied by byte-exact correspondence on interleaved captures; that a session only uses key-log lines with its own client random is read off "
-             "the model (find_session_secrets is a filter) and exercised by the shuffled shared key log, not proved end to end; 4-tuple reuse excluded.",
+             "flows; C04_quic_one_datagram; via C08_quic_session_identity). Shared key log: C04_own_keylog_lines_tls / _quic (a session reads the key log only through the lines "
+             "with its own client random: other connections' lines added, removed or shuffled around them change nothing), C04_foreign_lines_anywhere. Closed under the global context. The check merges 2..6 TLS/QUIC connections in all endpoint arrangements the property lists and compares, frame for frame, with the solo exports.",
+        note="Trusted: Coq kernel; models tied by byte-exact correspondence on interleaved captures; 4-tuple reuse excluded.",
         technique="Coq proof (projection of the TLS and of the QUIC session list onto a flow commutes with packet handling) + merged-vs-solo export comparison",
         design="3 C04"),
     "C18": dict(
